@@ -26,9 +26,9 @@ struct Osc { int shape; float detune; bool sync; static const rtosc::Ports ports
 struct Fx { int kind; float mix; int taps[3]; static const rtosc::Ports ports; Fx() : kind(1), mix(0.25f) { taps[0] = 1; taps[1] = 2; taps[2] = 3; } };
 struct Flat {
     int i_pos, i_neg, i_wide; float f1, f_neg; bool t_off, t_on; int opt; char name[24]; char tag[6];
-    int arr[4]; float farr[3]; bool tarr[3]; char pc; int slot_level[3]; char text[120]; int big[12]; float fbig[8]; int oarr[3]; int kw;
+    int arr[4]; float farr[3]; bool tarr[3]; bool tmix[4]; bool tmix2[3]; char pc; int slot_level[3]; char text[120]; int big[12]; float fbig[8]; int oarr[3]; int kw;
     Flat() : i_pos(10), i_neg(-5), i_wide(0), f1(0.5f), f_neg(-1.25f), t_off(false), t_on(true), opt(1), pc('@') {
-        strcpy(name, "init"); strcpy(tag, ""); int a[4] = {1, 2, 3, 4}; memcpy(arr, a, sizeof a); farr[0] = farr[1] = farr[2] = 0; tarr[0] = tarr[1] = tarr[2] = false; slot_level[0] = slot_level[1] = slot_level[2] = 0; strcpy(text, ""); for (int q = 0; q < 12; q++) big[q] = 0; for (int q = 0; q < 8; q++) fbig[q] = 1.0f; oarr[0] = oarr[1] = oarr[2] = 0; kw = 0; }
+        strcpy(name, "init"); strcpy(tag, ""); int a[4] = {1, 2, 3, 4}; memcpy(arr, a, sizeof a); farr[0] = farr[1] = farr[2] = 0; tarr[0] = tarr[1] = tarr[2] = false; tmix[0] = true; tmix[1] = tmix[2] = tmix[3] = false; tmix2[0] = false; tmix2[1] = tmix2[2] = true; slot_level[0] = slot_level[1] = slot_level[2] = 0; strcpy(text, ""); for (int q = 0; q < 12; q++) big[q] = 0; for (int q = 0; q < 8; q++) fbig[q] = 1.0f; oarr[0] = oarr[1] = oarr[2] = 0; kw = 0; }
     static const rtosc::Ports ports;
 };
 // ------------------------------------------------------------------ application 2: presets, enabled-by, sub-trees
@@ -100,10 +100,12 @@ inline const rtosc::Ports Flat::ports = {
     rArrayI(arr, 4, rLinear(-50, 50), rDefault([1 2 3 4]), "int array"),
     rArrayF(farr, 3, rLinear(-1, 1), rDefault([3x0.0]), "float array"),
     rArrayT(tarr, 3, rDefault([false false false]), "toggle array"),
+    rArrayT(tmix, 4, rDefault([true false false false]), "toggle array whose default starts true and ends false"),
+    rArrayT(tmix2, 3, rDefault([false true true]), "toggle array whose default starts false and ends true"),
     rParam(pc, rDefault('@'), "char parameter"),
     rOption(kw, rOptions(plain, inf_loop, true_bypass, nil_x, false_start, now_playing, immediately_2, MIDI_in), rLinear(0, 7), rDefault(plain), "option whose symbols start with words of the text format"),
     rString(text, 120, rDefault(""), "long string (the printer breaks it over several lines)"),
-    rArrayI(big, 12, rLinear(-100, 100), rDefault([12x0]), "long int array (runs and arithmetic sequences are printed as ranges)"),
+    rArrayI(big, 12, rLinear(-1000, 1000), rDefault([12x0]), "long int array (runs and arithmetic sequences are printed as ranges)"),
     rArrayF(fbig, 8, rLinear(-4, 4), rDefault([8x1.0]), "long float array"),
     rArrayOption(oarr, 3, rOptions(lo, mid, hi), rLinear(0, 2), rDefault([lo lo lo]), "option array"),
     {"slot#3/level::i", rProp(parameter) rMap(min, 0) rMap(max, 100) rDefault([3x0]) rDoc("enumeration in the middle of a leaf name"), NULL,
@@ -203,10 +205,12 @@ inline const std::vector<Param> &flat_params() {
     P.push_back({"/pc", 1, 'c', [](void *o, int) { return vi(F(o)->pc); }, [](void *, int) { return vi('@'); }, yes, 0, 127, 0, {}});
     P.push_back({"/kw", 1, 'o', [](void *o, int) { return vi(F(o)->kw); }, [](void *, int) { return vi(0); }, yes, 0, 7, 0, {"plain", "inf_loop", "true_bypass", "nil_x", "false_start", "now_playing", "immediately_2", "MIDI_in"}});
     P.push_back({"/text", 1, 's', [](void *o, int) { return vs(F(o)->text); }, [](void *, int) { return vs(""); }, yes, 0, 0, 120, {}});
-    P.push_back({"/big", 12, 'i', [](void *o, int k) { return vi(F(o)->big[k]); }, [](void *, int) { return vi(0); }, yes, -100, 100, 0, {}});
+    P.push_back({"/big", 12, 'i', [](void *o, int k) { return vi(F(o)->big[k]); }, [](void *, int) { return vi(0); }, yes, -1000, 1000, 0, {}});
     P.push_back({"/fbig", 8, 'f', [](void *o, int k) { return vf(F(o)->fbig[k]); }, [](void *, int) { return vf(1.0f); }, yes, -4, 4, 0, {}});
     P.push_back({"/oarr", 3, 'o', [](void *o, int k) { return vi(F(o)->oarr[k]); }, [](void *, int) { return vi(0); }, yes, 0, 2, 0, {"lo", "mid", "hi"}});
     for (int q = 0; q < 3; q++) P.push_back({"/slot" + std::to_string(q) + "/level", 1, 'i', [q](void *o, int) { return vi(F(o)->slot_level[q]); }, [](void *, int) { return vi(0); }, yes, 0, 100, 0, {}});
+    P.push_back({"/tmix", 4, 'T', [](void *o, int k) { return vb(F(o)->tmix[k]); }, [](void *, int k) { return vb(k == 0); }, yes, 0, 1, 0, {}});
+    P.push_back({"/tmix2", 3, 'T', [](void *o, int k) { return vb(F(o)->tmix2[k]); }, [](void *, int k) { return vb(k != 0); }, yes, 0, 1, 0, {}});
 #undef F
     return P;
 }
